@@ -605,17 +605,26 @@ KINDS = ["full", "full", "discrete", "empty", "nosamples"]
 
 
 def cases(tier, seed):
+    only = os.environ.get("VERIF_C09_KINDS")  # development filter, e.g. "oom"
+    if only:
+        for c in _cases(tier, seed):
+            if c["gen"] in only.split(","):
+                yield c
+        return
+    yield from _cases(tier, seed)
+
+
+def _cases(tier, seed):
     reps = 5 if tier == "quick" else 40
     for rep in range(reps):
         for ci in range(len(CAT)):
             yield {"gen": "sweep", "call": ci, "name": CAT[ci]["name"], "rep": rep}
+    for ci in range(len(OOM_CALLS)):
+        for rep in range(1 if tier == "quick" else 6):
+            yield {"gen": "oom", "call": ci, "rep": rep}
     nprog = 12000 if tier == "quick" else 400000
     for k in range(nprog):
         yield {"gen": "program", "k": k}
-    if tier == "thorough":
-        for ci in range(len(OOM_CALLS)):
-            for rep in range(3):
-                yield {"gen": "oom", "call": ci, "rep": rep}
 
 
 OK_EXC = (tskit.LibraryError, ValueError, TypeError, OverflowError, IndexError, KeyError, AttributeError, AssertionError,
@@ -880,11 +889,19 @@ OOM_CALLS = [
     ("ld_matrix", lambda o: o.ts.ld_matrix() if o.ts.num_sites else None),
     ("extend_haplotypes", lambda o: o.ts.extend_haplotypes()),
     ("split_edges", lambda o: o.ts.split_edges(0.75)),
-    ("add_rows", lambda o: [o.tables.copy().nodes.add_row(time=j, metadata=b"x" * j) for j in range(40)]),
+    ("add_rows", lambda o: _add_rows(o)),
     ("table_getitem", lambda o: o.tables.nodes[np.arange(o.n) % 2 == 0]),
     ("pair_coalescence_counts", lambda o: o.ts.pair_coalescence_counts() if o.ts.num_samples > 1 else None),
     ("relatedness_vector", lambda o: o.ts.genetic_relatedness_vector(np.ones((o.ts.num_samples, 1)), mode="branch")),
 ]
+
+
+def _add_rows(o):
+    c = o.tables.copy()
+    for j in range(40):
+        c.nodes.add_row(time=j, metadata=b"x" * (j * 7))
+        c.sites.add_row(position=j, ancestral_state="A" * j)
+    return c.nodes.num_rows
 
 
 def _nomig(tc):
@@ -913,13 +930,21 @@ def run_oom(case, ctx):
     sh.tskfail_arm(-1)
     try:
         fn(o)
+    except Exception as e:  # noqa: BLE001 - the call is not applicable to this input (e.g. migrations present)
+        ctx.feature(f"oom-baseline-raises:{name}:{type(e).__name__}")
+        sh.tskfail_disarm()
+        return
     finally:
         total = sh.tskfail_disarm()
     ctx.sig(("oom", name, o.m.signature()), nontrivial=total > 0)
     ctx.feature(f"oom-points:{name}", total)
     if total == 0:
         ctx.count("oom-shim-inactive")
-    for k in range(1, total + 1):
+    ks = list(range(1, total + 1))
+    if total > 300:  # bounded: the first 100 points and a random sample of the rest
+        ks = ks[:100] + sorted(rng.sample(ks[100:], 200))
+        ctx.feature("oom-sampled")
+    for k in ks:
         ctx.step(f"oom: {name} failing tsk allocation {k} of {total}")
         ctx.count("oom-injections")
         sh.tskfail_arm(k)
